@@ -539,21 +539,24 @@ impl DrawState {
 
         let term_width = term.width() as usize;
 
-        // Here we calculate the terminal vertical real estate that the state requires
-        let full_height = self.visual_line_count(.., term_width);
+        // Here we calculate the terminal vertical real estate that the bars of the state require
+        // (text lines are printed once, above the region that is redrawn)
+        let bars_height = self
+            .lines
+            .iter()
+            .filter(|line| matches!(line, LineType::Bar(_)))
+            .fold(VisualLines::default(), |acc, line| {
+                acc.saturating_add(line.wrapped_height(term_width))
+            });
 
+        // If we align to the bottom and the new height is less than before, the lines that are
+        // not used by the new content are left blank. This padding belongs to the redrawn region:
+        // it goes directly above the first bar, below any text lines.
         let shift = match self.alignment {
-            // If we align to the bottom and the new height is less than before, clear the lines
-            // that are not used by the new content.
-            MultiProgressAlignment::Bottom if full_height < *bar_count => {
-                let shift = *bar_count - full_height;
-                for _ in 0..shift.as_usize() {
-                    term.write_line("")?;
-                }
-                shift
-            }
+            MultiProgressAlignment::Bottom if bars_height < *bar_count => *bar_count - bars_height,
             _ => VisualLines::default(),
         };
+        let mut padded = shift == VisualLines::default();
 
         // Accumulate the displayed height in here. This differs from `full_height` in that it will
         // accurately reflect the number of lines that have been displayed on the terminal, if the
@@ -580,6 +583,13 @@ impl DrawState {
                 term.write_line("")?;
             }
 
+            if matches!(line, LineType::Bar(_)) && !padded {
+                for _ in 0..shift.as_usize() {
+                    term.write_line("")?;
+                }
+                padded = true;
+            }
+
             term.write_str(line.as_ref())?;
             ends_with_text = !matches!(line, LineType::Bar(_));
 
@@ -597,6 +607,16 @@ impl DrawState {
             // the next draw then starts on a fresh row even if its first line is empty (an
             // empty line does not wrap a cursor parked at the right edge).
             term.write_line("")?;
+        }
+
+        if !padded {
+            // No bar was painted: the padding is all there is of the region. Keep the cursor on
+            // the right side of its last line, where it would be after a last bar line, so that
+            // the next draw finds the region where it expects it.
+            for _ in 1..shift.as_usize() {
+                term.write_line("")?;
+            }
+            term.write_str(&" ".repeat(term_width))?;
         }
 
         term.flush()?;
